@@ -1185,6 +1185,10 @@ Section Nlri.
 
   Definition SLASH : N := 47.
 
+  (* prefix_octets_ok: the address octets after the ceil(len / 8) that travel are zero *)
+  Definition octets_ok (width : N) (a len : N) : bool :=
+    a mod (256 ^ (width - (len + 7) / 8)) =? 0.
+
   (* Prefix: Nlri::from_str(format!("{}/{}", prefix, prefix_len)).  The formatted
      string splits on '/' into exactly two parts iff the prefix holds no '/';
      the decimal u32 parses as a u8 iff it is <= 255.
@@ -1196,22 +1200,22 @@ Section Nlri.
     | PPrefix s len =>
         if existsb (fun c => c =? SLASH) s then None
         else match ip4_of_string s with
-             | Some a => if 255 <? len then None else if 32 <? len then None else Some (NV4 a len)
+             | Some a => if 255 <? len then None else if 32 <? len then None else if octets_ok 4 a len then Some (NV4 a len) else None
              | None =>
                  match v6r s with
-                 | Some a => if 255 <? len then None else if 128 <? len then None else Some (NV6 a len)
+                 | Some a => if 255 <? len then None else if 128 <? len then None else if octets_ok 16 a len then Some (NV6 a len) else None
                  | None => None
                  end
              end
     | PLabeled ls s len =>
         match ip4_of_string s with
         | Some a =>
-            if (32 <? len) || existsb (fun l => 1048575 <? l) ls || Nat.eqb (length ls) 0 || (255 <? 24 * N.of_nat (length ls) + len) then None
+            if (32 <? len) || existsb (fun l => 1048575 <? l) ls || Nat.eqb (length ls) 0 || (255 <? 24 * N.of_nat (length ls) + len) || negb (octets_ok 4 a len) then None
             else Some (NLab4 ls a len)
         | None =>
             match v6r s with
             | Some a =>
-                if (128 <? len) || existsb (fun l => 1048575 <? l) ls || Nat.eqb (length ls) 0 || (255 <? 24 * N.of_nat (length ls) + len) then None
+                if (128 <? len) || existsb (fun l => 1048575 <? l) ls || Nat.eqb (length ls) 0 || (255 <? 24 * N.of_nat (length ls) + len) || negb (octets_ok 16 a len) then None
                 else Some (NLab6 ls a len)
             | None => None
             end
@@ -1222,12 +1226,12 @@ Section Nlri.
         | Some d' =>
             match ip4_of_string s with
             | Some a =>
-                if (32 <? len) || existsb (fun l => 1048575 <? l) ls || Nat.eqb (length ls) 0 || (255 <? 24 * N.of_nat (length ls) + 64 + len) then None
+                if (32 <? len) || existsb (fun l => 1048575 <? l) ls || Nat.eqb (length ls) 0 || (255 <? 24 * N.of_nat (length ls) + 64 + len) || negb (octets_ok 4 a len) then None
                 else Some (NVpn4 ls d' a len)
             | None =>
                 match v6r s with
                 | Some a =>
-                    if (128 <? len) || existsb (fun l => 1048575 <? l) ls || Nat.eqb (length ls) 0 || (255 <? 24 * N.of_nat (length ls) + 64 + len) then None
+                    if (128 <? len) || existsb (fun l => 1048575 <? l) ls || Nat.eqb (length ls) 0 || (255 <? 24 * N.of_nat (length ls) + 64 + len) || negb (octets_ok 16 a len) then None
                     else Some (NVpn6 ls d' a len)
                 | None => None
                 end
@@ -1514,6 +1518,17 @@ Definition v_onlri (o : option nlri) : val :=
 
 (* ------------------------------------------------------------------ *)
 (* GrpcService::local_path: family, NLRI, then the attributes one by one      *)
+(* convert::nlri_matches_family for the modelled NLRI kinds (family = afi * 65536 + safi) *)
+Definition nlri_matches_family (n : nlri) (family : N) : bool :=
+  match n with
+  | NV4 _ _ => (family =? 65537) || (family =? 65538)
+  | NV6 _ _ => (family =? 131073) || (family =? 131074)
+  | NLab4 _ _ _ => family =? 65540
+  | NLab6 _ _ _ => family =? 131076
+  | NVpn4 _ _ _ _ => family =? 65664
+  | NVpn6 _ _ _ _ => family =? 131200
+  end.
+
 Section LocalPath.
   Variable v6r : list N -> option N.
 
@@ -1572,6 +1587,7 @@ Section LocalPath.
     match net_from_api v6r n with
     | None => None
     | Some net =>
+        if negb (nlri_matches_family net family) then None else
         match lp_loop family xs [] None with
         | None => None
         | Some (acc, nh) => Some (family, net, with_defaults acc, nh)
